@@ -1,4 +1,5 @@
 SPECIFICATION Spec
+CONSTANT Lax = FALSE
 CONSTANT Canonical = TRUE
 INVARIANT Inv_C01
 INVARIANT Inv_C02
